@@ -20,7 +20,11 @@ META = dict(
          "with the run in which it had no effect, requires the hook to return, and checks naturally failing units and per-item steps (masked-item reference) the same way. Liquidation steps (one vault / one borrow, V1 and V2) "
          "are additionally judged by facets around the module's begin blocker run alone: seized, locked-vault written, auction started must be all true or all false - also when an inner "
          "step fails by itself (auction parameters missing, auction type off, price inactive at the auction start, collateral lent out). Hook loops are driven with real work in two CDP apps "
-         "(both white-listed for V1 and V2 liquidation, liquidity in two apps); hooks run while a state's history is produced are judged like plain blocks.",
+         "(both white-listed for V1 and V2 liquidation, liquidity in two apps); hooks run while a state's history is produced are judged like plain blocks. "
+         "Unwrapped hooks are driven through multi-block histories of their inputs (band price rounds for window sizes 1-4: positive runs, zero-rate outages shorter and longer than the "
+         "accepted gap, rebuilds, silent rounds, short answers); optional records are present/absent in governance's set-up orders (lookup table / auction mapping before any fee, second "
+         "asset later, missing white-listing / auction parameters, kill switch); a failing step of another stage of a hook (surplus/debt starter) must leave every listed unit's facets "
+         "as in the run where that step is masked.",
     note="Trusted: TLC/Json module, sim.Digest over all DeFi stores + bank, the observation of unit failures through the wrapper's error log line, the item masks "
          "(borrow flagged liquidated / vault collateral inflated) used only for reference runs. Faults are injected at gas-metered store accesses only.",
     design_ref="4 C15",
@@ -78,13 +82,14 @@ def run(c):
         return c.finish("fault_enumeration", dict(evaluations=max(1, len(nodes)), distinct_nontrivial=max(2, len(c.violations)),
                                                   rule="run ended with violations; see replay files", antecedents=st))
     need = ["states", "blocks", "units", "nestedUnits", "failedUnits", "effectiveUnits", "faultsFired", "faultsNested", "itemsFailed", "toys", "toysAborting",
-            "facets", "facetsApplied", "facetsV1Applied", "facetsBorrowApplied", "facetsUntouched", "facetsEnvFault", "multiAppSweeps"]
+            "facets", "facetsApplied", "facetsV1Applied", "facetsBorrowApplied", "facetsUntouched", "facetsEnvFault", "multiAppSweeps",
+            "stages", "stagesFailedWithWork", "oracleRounds", "oracleZeroRounds", "oracleRebuildRounds", "histSteps"]
     zero = [k for k in need if st.get(k, 0) == 0]
     if zero:
         raise vlib.NoVerdict("vacuous run, zero antecedent counters %s: %s" % (zero, st))
     if m1.get("transitions_dumped", 0) != st["toys"]:
         raise vlib.NoVerdict("model behaviours dumped (%s) != executed on the real wrapper (%s)" % (m1.get("transitions_dumped"), st["toys"]))
-    cases = st["toys"] + st["faults"] + st["units"] + st["items"] + st["blocks"] + st["dryRuns"] + st["facets"]
+    cases = st["toys"] + st["faults"] + st["units"] + st["items"] + st["blocks"] + st["dryRuns"] + st["facets"] + st["stages"]
     nontrivial = st["toysAborting"] + st["faultsFired"] + st["failedUnits"] + st["itemsFailed"]
     return c.finish("fault_enumeration", dict(
         evaluations=cases, distinct_nontrivial=nontrivial,
